@@ -113,7 +113,11 @@ impl XRefTable {
                 let should_be_updated = match *dst {
                     XRef::Raw { gen_nr: gen, .. } | XRef::Free { gen_nr: gen, .. }
                         => entry.get_gen_nr() > gen,
-                    XRef::Stream { .. } | XRef::Invalid
+                    // sections are merged newest first: an entry for a compressed object
+                    // (generation 0) is kept like any other entry that is already present
+                    XRef::Stream { .. }
+                        => entry.get_gen_nr() > 0,
+                    XRef::Invalid
                         => true,
                     x => bail!("found {:?}", x)
                 };
